@@ -10,4 +10,4 @@ git -C $wt apply /verif/seeded/$seed/patch.diff || { git -C /repo worktree remov
 VERIF_REPO=$wt ./check $id --tier $tier > /verif/.work/seed_${seed}_$id.log 2>&1
 rc=$?
 git -C /repo worktree remove --force $wt
-echo "$seed on $id ($tier): exit=$rc $(grep -E '^(VIOLATION|KNOWN)' /verif/.work/seed_${seed}_$id.log | head -2 | tr '\n' ' ')"
+echo "$seed on $id ($tier): exit=$rc $(grep -E '^VIOLATION' /verif/.work/seed_${seed}_$id.log | head -2 | tr '\n' ' ')"
